@@ -6,7 +6,7 @@ import subprocess
 from checks import lib
 
 PROPERTY = "C22"
-LEAN_MODULES = ["KafVerif.Props.C22"]
+LEAN_MODULES = ["KafVerif.Props.C22", "KafVerif.Props.C22Delete"]
 OBLIGATIONS = [
     "KafVerif.C22.accepted_plain",
     "KafVerif.C22.keys_injective",
@@ -16,21 +16,32 @@ OBLIGATIONS = [
     "KafVerif.C22.loginit_format_injective",
     "KafVerif.C22.loginit_src_injective",     # about the key expression REGENERATED from cmd/broker/main.go (Gen/C22LogInit.lean)
     "KafVerif.C22.loginit_nosep_collides",
+    # the DELETE SELECTORS of DeleteTopic in both stores (Props/C22Delete.lean)
+    "KafVerif.C22.delete_selects_only_own_keys",
+    "KafVerif.C22.delete_selects_all_own_keys",
+    "KafVerif.C22.contains_selector_overmatches",
+    "KafVerif.C22.fixed_selector_exact",
+    "KafVerif.C22.regex_selector_crosses_topics",
 ]
 BUILDS = {"h": ("root", "./cmd/broker", ["C22"])}      # one binary: harness inside package main (VERIF_HARNESS=C22)
 TECHNIQUE = ("Lean 4 proof (injectivity of every key constructor on accepted names, for all namespaces/partitions/offsets) + correspondence of "
              "the real CreateTopic and key constructors with the model + direct collision monitor on the real keys + go/ast-regenerated key "
-             "expression of getPartitionLog's singleflight group with a Lean obligation + gated concurrent-first-produce scenarios through the real handler")
+             "expression of getPartitionLog's singleflight group with a Lean obligation + gated concurrent-first-produce scenarios through the real handler "
+             "+ delete selectors of DeleteTopic as predicates over keys (Lean: select only own keys) diffed against both real stores (embedded etcd) on "
+             "families of near-identical accepted names, with a raw etcd key dump and a Store-API read-back of every other topic")
 LEVEL_TEXT = ("keys_injective / topics_disjoint proved at full strength for every pair of accepted names, every namespace string, "
               "partition and base offset; path.Clean/path.Join are modelled segment-wise and diffed against Go on generated paths; the "
               "singleflight key of getPartitionLog is regenerated from the source on every run and proved injective (loginit_src_injective)")
-LEVEL_NOTE = ("consumer-offset keys (group dimension) belong to C16; recovery.go re-derives the same path.Join keys and is covered by the same lemma "
+LEVEL_NOTE = ("identity of consumer-offset keys across groups belongs to C16; the delete selectors over them are proved for group ids without '/' "
+              "(and not group = topic = \"offsets\": theorem contains_selector_overmatches, proposed fix fixes/C22-delete-consumer-offsets-anchored.patch); recovery.go re-derives the same path.Join keys and is covered by the same lemma "
               "but not driven; the singleflight key expression is tied statically (extractor, trusted) and by scenarios, not by a line-by-line diff")
 ASSUMPTIONS = [
     "Go strings are modelled as byte lists; fmt %d / %020d as in the model (diffed on boundary values)",
     "keys collide only within one key space (S3 bucket, etcd, cache map, offsets map, lease map); the namespace is the same for both topics (one broker configuration)",
     "topic names reach storage only through CreateTopic / auto-create (snapshot topics published by the operator are constrained by C39)",
     "static tie of the singleflight key: the go/ast extractor harness/C22/tools/extract (trusted) resolves the first argument of every <recv>.logInit.Do/DoChan call in cmd/broker/main.go through fmt.Sprintf / fmt.Sprint / + / strconv.Itoa and single-definition locals; a key built any other way makes the obligation fail (reported without a failing input unless a scenario finds one)",
+    "delete selectors: group ids contain no '/' and not (group id = deleted topic = \"offsets\") — outside that HEAD's substring filter over-matches "
+    "(driven in the adv-* families, compared with the model's prediction, reported as proposed/known finding, never as a new violation)",
     "scenario schedule: only the first store.NextOffset of the parked (topic, partition) is gated; the second request is released when it has finished or is seen (goroutine stack) waiting inside singleflight.Group.Do for another goroutine's call",
 ]
 TRUSTED = ["harness/C22/tools/extract (go/ast extractor of the singleflight key expression)"]
@@ -450,6 +461,179 @@ def run_scenarios(ck, binary, scs, tag):
     return good
 
 
+# ------------------------------------------------------------------ delete selectors: families of names on both real stores
+
+FAM_PRE = ["metrics", "a", "orders", "x9", "T", "app-logs", "q_", "a.b"]
+FAM_SUF = ["cpu", "b", "v2", "0", "Z", "dlq", "c-d"]
+FAM_META = [".", "_", "-", "X"]
+FAM_WORDS = ["offsets", "partitions", "config", "metadata", "topics", "consumers", "next_offset", "kafscale", "snapshot"]
+FAM_GROUPS = ["g", "dash.boards", "a-b", "offsets2", "x_offsets", "metadata", "0", "offsets", "partitions", "grp_1", "consumers"]
+FAM_FP = "delete-topic-removes-keys-of-other-topic"
+FAM_KNOWN_FP = "etcd-delete-topic-offsets-marker-overmatch"
+
+
+def fam_in_hypotheses(f):
+    """Hypotheses of KafVerif.C22.delete_selects_only_own_keys on the group ids."""
+    return all("/" not in g for g in f["groups"]) and not (f["victim"] == "offsets" and "offsets" in f["groups"])
+
+
+def gen_families(rng, quick):
+    """Families of ACCEPTED names that differ by one regex/glob metacharacter or are prefixes of each other, names that
+    are words of the key layout, one topic with more than 256 etcd keys; which one is deleted, the partition counts and
+    the groups come from the seed.  Every run deletes a name with '.' next to its '_' '-' 'X' siblings, a prefix name
+    next to its extensions, an extension next to its prefix, and the >256-key topic next to earlier- and later-sorting
+    siblings."""
+    out = []
+    k = 1 if quick else 6
+
+    def groups(victim):
+        pool = [g for g in FAM_GROUPS if not (victim == "offsets" and g == "offsets")]
+        gs = []
+        for _ in range(rng.range(2, 4)):
+            g = rng.choice(pool)
+            if g not in gs:
+                gs.append(g)
+        return gs
+
+    def parts():
+        return rng.choice([1, 1, 2, 3])
+
+    def add(fam, victim, names, big=None, gs=None):
+        names = list(dict.fromkeys(names))
+        order = list(names)
+        for i in range(len(order) - 1, 0, -1):          # creation order from the seed
+            j = rng.below(i + 1)
+            order[i], order[j] = order[j], order[i]
+        out.append({"fam": fam, "victim": victim, "groups": gs or groups(victim),
+                    "topics": [(n, big if (big and n == victim) else parts()) for n in order]})
+
+    for _ in range(2 * k):
+        pre, suf = rng.choice(FAM_PRE), rng.choice(FAM_SUF)
+        names = [pre + c + suf for c in FAM_META] + ([pre + suf] if rng.chance(1, 2) else [])
+        add("meta-dot", pre + "." + suf, names)
+    for _ in range(k):
+        pre, suf = rng.choice(FAM_PRE), rng.choice(FAM_SUF)
+        names = [pre + c + suf for c in FAM_META]
+        add("meta-any", rng.choice(names[1:]), names)
+    for _ in range(k):
+        a, b, c = rng.choice(FAM_PRE), rng.choice(["m", "1", "b_"]), rng.choice(FAM_SUF)
+        names = [a + x + b + y + c for x in (".", "_", "X") for y in (".", "-")]
+        add("two-dots", a + "." + b + "." + c, names + [a + ".." + c, a + "." + b])
+    for _ in range(k):
+        b = rng.choice(["t", "orders", "a.b", "x-", "T_1", "0"])
+        names = [b, b + "1", b + "11", b + ".1", b + "-1", b + "_", b + ".", b + "1.x"]
+        add("prefix-del-prefix", b, names)
+        add("prefix-del-ext", b + "1", names)
+    for _ in range(k):
+        ws = [w for w in FAM_WORDS]
+        names = [rng.choice(ws) for _ in range(4)] + ["orders"]
+        add("wordy", rng.choice(names[:4]), names)
+    for _ in range(1 if quick else 2):
+        v = rng.choice(["m", "bulk", "m.x", "big-1", "B_"])
+        n = rng.choice([260, 300]) if quick else rng.choice([256, 300, 520, 600])
+        add("big", v, [v, v + "0", v + "-", v + ".", "zz" + v, "0" + v, v + "z", v[:-1] + "A"], big=n)
+    # OUTSIDE the hypotheses on the group ids (never alarmed as a new violation; model vs implementation only)
+    add("adv-offsets-word", "offsets", ["offsets", "orders", "payments"], gs=["offsets", "g"])
+    x = rng.choice(["x", "orders", "a.b"])
+    add("adv-slashed-group", x, [x, "y", x + "1"], gs=["g/offsets/" + x + "/9", "g", "h/offsets/" + x + "/"])
+    return out
+
+
+def fam_line(f):
+    return "delfam %s %s %s" % (hx(f["victim"]), ",".join(hx(g) for g in f["groups"]),
+                                ";".join("%s:%d" % (hx(n), p) for n, p in f["topics"]))
+
+
+def fam_of_line(line):
+    w = line.split()
+    d = lambda x: unhx(x).decode("latin-1")
+    return {"fam": "replay", "victim": d(w[1]), "groups": [d(g) for g in w[2].split(",")],
+            "topics": [(d(sp.split(":")[0]), int(sp.split(":")[1])) for sp in w[3].split(";")]}
+
+
+def fam_judge(f, impl, model):
+    """-> (verdict, text).  verdict: ok | violation | known | broken."""
+    head, _, fixed = model.partition(" || ")
+    d = kv(impl)
+    if not impl.startswith("delfam dM="):
+        return "broken", "harness answered %r" % impl[:300]
+    names = [n for n, _ in f["topics"]]
+
+    def owner(o):
+        return "a consumer group's metadata" if o == "G" else "topic %r" % names[int(o)]
+    lost = [] if d.get("lostE", "-") == "-" else d["lostE"].split(",")
+    api = [("in-memory", x) for x in ([] if d.get("apiM", "-") == "-" else d["apiM"].split(","))] + \
+          [("etcd", x) for x in ([] if d.get("apiE", "-") == "-" else d["apiE"].split(","))]
+    if lost or api:
+        what = "DeleteTopic(%r) with topics %s and groups %s: " % (f["victim"], names, f["groups"])
+        what += "; ".join(["removed or changed etcd key %s of %s" % (unhx(x.split("@")[0]).decode("latin-1"), owner(x.split("@")[1])) for x in lost[:6]] +
+                          ["%s store: %s of %s no longer reads back as before" % (st, x.split(":", 1)[1], owner(x.split(":", 1)[0])) for st, x in api[:6]])
+        if fam_in_hypotheses(f):
+            return "violation", what
+        if impl == head:
+            return "known", what
+        return "broken", "outside the group-id hypotheses, and neither HEAD's nor the fixed selector predicts it: " + what
+    if d.get("dM") != "ok" or d.get("dE") != "ok":
+        return "broken", "DeleteTopic(%r) answered in-memory=%s etcd=%s" % (f["victim"], d.get("dM"), d.get("dE"))
+    if d.get("leftE", "-") != "-" or d.get("staleM", "-") != "-" or d.get("staleE", "-") != "-":
+        return "broken", "DeleteTopic(%r) left keys of the topic itself behind: leftE=%s staleM=%s staleE=%s" % (
+            f["victim"], d.get("leftE", "")[:200], d.get("staleM"), d.get("staleE"))
+    if impl not in (head, fixed):
+        return "broken", "model and implementation disagree on what DeleteTopic(%r) removes\nimpl : %s\nmodel: %s" % (f["victim"], impl[:400], model[:800])
+    return "ok", "fixed-selector" if (impl == fixed and impl != head) else ""
+
+
+def run_families(ck, binary, fams, tag):
+    """Runs the delete-selector families on both real stores; returns False after reporting a violation."""
+    lines = [fam_line(f) for f in fams]
+    fn = ck.path("fam_%s.txt" % tag)
+    open(fn, "w").write("\n".join(lines) + "\n")
+    rc, out, err = ck.run_bin(binary, stdin_path=fn, env={"VERIF_HARNESS": "C22"}, timeout=600)
+    res = [l for l in out.split("\n")[:-1] if not l.startswith("{")]
+    if rc != 0 or len(res) != len(lines):
+        ck.broke("delete-selector harness (cmd/broker, VERIF_HARNESS=C22, op delfam) did not answer every family",
+                 "rc=%s lines=%d/%d %s\nlast: %s" % (rc, len(res), len(lines), err[-800:], res[-1:] and res[-1][:300]))
+        return True
+    model = ck.lean_run("C22", fn)
+    ck.cov["traces_validated_against_impl"] += len(lines)
+    good, broken = True, []
+    for f, line, r, m in zip(fams, lines, res, model + [""] * len(lines)):
+        verdict, text = fam_judge(f, r, m)
+        d = kv(r)
+        ck.case(line, nontrivial=r.startswith("delfam dM=ok"),
+                sample={"op": "delfam %s: DeleteTopic(%r) among %s" % (f["fam"], f["victim"], [n for n, _ in f["topics"]][:5]), "impl": r[:120]}
+                if f["fam"] in ("meta-dot", "big") else None)
+        ck.count("delfam:%s:%s%s" % (f["fam"], verdict, (":" + text) if verdict == "ok" and text else ""))
+        if f["fam"] == "big":
+            ck.count("delfam:big:etcd-keys-of-deleted-topic>256" if int(d.get("nkeys", "0")) > 256 else "delfam:big:TOO-SMALL")
+            if verdict == "ok" and int(d.get("nkeys", "0")) <= 256:
+                verdict, text = "broken", "the big topic has only %s etcd keys (more than 256 intended)" % d.get("nkeys")
+        if verdict == "violation":
+            ck.violation(FAM_FP, text, {"delfam_ops": [line], "family": f, "expected": "DeleteTopic removes no key and changes no read-back "
+                                        "of another accepted topic, in either store", "actual": r})
+            good = False
+        elif verdict == "known":
+            fam_known(ck, text, line, r)
+        elif verdict == "broken":
+            broken.append("%s\n  -> %s" % (line[:300], text))
+    if broken and good:
+        ck.broke("delete-selector scenario did not behave as on the reference tree (no key of another topic involved)", "\n".join(broken[:6]))
+    return good
+
+
+def fam_known(ck, text, line, r):
+    """HEAD's Contains filter over-matches OUTSIDE the group-id hypotheses (group `offsets` + topic `offsets`; group ids that
+    carry `/offsets/<topic>/`).  Reported as KNOWN-FINDING when known_findings.json lists it, otherwise recorded as a note
+    (proposed finding + fixes/C22-delete-consumer-offsets-anchored.patch) without alarming on the unchanged tree."""
+    if any(k.get("property") == PROPERTY and k.get("fingerprint") == FAM_KNOWN_FP and k.get("status", "open") == "open" for k in ck.known):
+        ck.violation(FAM_KNOWN_FP, text, {"delfam_ops": [line], "actual": r})
+    else:
+        note = "PROPOSED FINDING %s (outside the group-id hypotheses; not alarmed): %s" % (FAM_KNOWN_FP, text[:400])
+        if not any(n.startswith("PROPOSED FINDING") for n in ck.notes):
+            ck.notes.append(note)
+        ck.count("delfam:proposed-finding-observed")
+
+
 def run_ops(ck, binary, ops, tag, model=True):
     fn = ck.path("ops_%s.txt" % tag)
     open(fn, "w").write("\n".join(ops) + "\n")
@@ -495,7 +679,9 @@ def run(ck):
     ck._c22_static = static_verdict(ck)
     ck.cov["rule"] = ("a case = one op line (accept / keys / pair / clean / join) on a generated topic name, namespace, partition and "
                       "base offset, or one concurrent-first-produce scenario (`first`: two (topic, partition) pairs, one parked in its "
-                      "initialisation) through the real handler; non-trivial = keys/pair lines whose topic the real CreateTopic accepted, "
+                      "initialisation) through the real handler, or one delete-selector family (`delfam`: 3-9 accepted names that differ in one "
+                      "metacharacter / are prefixes of each other / are words of the key layout / one with > 256 etcd keys, created with offsets, "
+                      "config, partition state and commits of 2-4 groups in both real stores, one deleted, all others read back); non-trivial = keys/pair lines whose topic the real CreateTopic accepted, "
                       "accept lines it rejected for a reason other than emptiness, scenarios whose topics were both accepted; distinct = distinct op lines")
     ops, meta = gen_ops(ck.rng.fork(), ck.quick())
     scs = gen_scenarios(ck.rng.fork(), ck.quick())
@@ -520,6 +706,9 @@ def run(ck):
     mon = monitor(meta, impl)
     if mon:
         report(ck, binary, ops, meta, impl, mon)
+        return
+    # delete selectors: families of accepted names on both real stores (embedded etcd), one topic deleted, everything else read back
+    if not run_families(ck, binary, gen_families(ck.rng.fork(), ck.quick()), "fam"):
         return
     d = lib.first_diff(impl, model)
     if d is not None:
@@ -555,6 +744,28 @@ def replay(ck, path):
     if bins is None:
         return
     ck._c22_static = static_verdict(ck)
+    if "delfam_ops" in rep:
+        fams = [fam_of_line(l) for l in rep["delfam_ops"]]
+        fn = ck.path("fam_replay.txt")
+        open(fn, "w").write("\n".join(rep["delfam_ops"]) + "\n")
+        rc, out, err = ck.run_bin(bins["h"], stdin_path=fn, env={"VERIF_HARNESS": "C22"}, timeout=600)
+        res = [l for l in out.split("\n")[:-1] if not l.startswith("{")]
+        if rc != 0 or len(res) != len(fams):
+            ck.broke("delete-selector harness did not answer every family", "rc=%s %s" % (rc, err[-800:]))
+            return
+        model = ck.lean_run("C22", fn)
+        for f, line, r, m in zip(fams, rep["delfam_ops"], res, model):
+            verdict, text = fam_judge(f, r, m)
+            print("  DeleteTopic(%r) among %s, groups %s\n    -> %s\n    => %s %s" % (f["victim"], f["topics"], f["groups"], r[:600], verdict, text))
+            ck.case(line)
+            if verdict == "violation":
+                ck.violation(FAM_FP, text, {"delfam_ops": [line], "actual": r})
+            elif verdict == "known":
+                fam_known(ck, text, line, r)
+            elif verdict == "broken":
+                ck.broke("delete-selector scenario did not behave as on the reference tree", text)
+        ck.cov["distinct_nontrivial"] = max(2, ck.cov["distinct_nontrivial"])
+        return
     if "scenario_ops" in rep:
         lines = rep["scenario_ops"]
         rc, out, err = ck.run_bin(bins["h"], stdin_text="\n".join(lines) + "\n", env={"VERIF_HARNESS": "C22"}, timeout=120)
